@@ -63,28 +63,34 @@ def move (s : State) (c : Nat) (frm : List St) (to : St) : Option State :=
   | some st => if frm.contains st then some (set s c to) else none
   | none => none
 
-def step (s : State) : Ev → Option State
+/-- what the translator reads off transport.go `(*conn).run` (Gen.ConnLegacy.transportFacts): after a failed exchange
+(other than ErrNoRecord) the loop is left BEFORE `releaseConn` is reached -/
+structure TFacts where
+  dropFailed : Bool
+  deriving Repr, DecidableEq
+
+def step (f : TFacts) (s : State) : Ev → Option State
   | .new c g => if (get s c).isSome then none else some ((c, g, .fresh) :: s)
   | .grab c => move s c [.idle] .fresh
   | .recv c => move s c [.fresh] .serving
   | .done c ok nr => move s c [.serving] (if ok || nr then .doneOk else .doneFail)
-  | .release c true => move s c [.doneOk, .fresh] .idle
+  | .release c true => move s c (if f.dropFailed then [.doneOk, .fresh] else [.doneOk, .doneFail, .fresh]) .idle
   | .release c false => move s c [.doneOk, .fresh] .closing
   | .remove c => move s c [.idle] .closing
   | .closeIdle g => some (closeGroup s g)
-  | .exit c => move s c [.doneFail, .closing] .exited
+  | .exit c => move s c (if f.dropFailed then [.doneFail, .closing] else [.doneFail, .closing, .idle]) .exited
 
-def run (s : State) : List Ev → Option State
+def run (f : TFacts) (s : State) : List Ev → Option State
   | [] => some s
-  | e :: es => match step s e with
-    | some s' => run s' es
+  | e :: es => match step f s e with
+    | some s' => run f s' es
     | none => none
 
 /-- index of the first event the LTS refuses (for the oracle's diagnostics) -/
-def firstRejected (s : State) : List Ev → Nat → Option Nat
+def firstRejected (f : TFacts) (s : State) : List Ev → Nat → Option Nat
   | [], _ => none
-  | e :: es, i => match step s e with
-    | some s' => firstRejected s' es (i + 1)
+  | e :: es, i => match step f s e with
+    | some s' => firstRejected f s' es (i + 1)
     | none => some i
 
 /-- c has failed: it is waiting to exit or has exited -/
